@@ -107,14 +107,27 @@ def evaluate(
 
   stdout = io.StringIO()
   with contextlib.redirect_stdout(stdout):
-    if hasattr(code_block.body[-1], 'value'):   # pytype: disable=attribute-error
+    if isinstance(code_block.body[-1], (ast.Expr, ast.Assign)):   # pytype: disable=attribute-error
       last_expr = code_block.body.pop()  # pytype: disable=attribute-error
       result_vars = [RESULT_KEY]
+      complex_assign = None
 
       if isinstance(last_expr, ast.Assign):
         for name_node in last_expr.targets:
           if isinstance(name_node, ast.Name):
             result_vars.append(name_node.id)
+          else:
+            # Attribute, subscript and unpacking targets are assigned by
+            # executing the assignment with the evaluated result as value.
+            complex_assign = ast.Module(
+                body=[
+                    ast.Assign(
+                        targets=last_expr.targets,
+                        value=ast.Name(id=RESULT_KEY, ctx=ast.Load()),
+                    )
+                ],
+                type_ignores=[],
+            )
 
       last_expr = ast.Expression(last_expr.value)  # pytype: disable=attribute-error
 
@@ -141,6 +154,14 @@ def evaluate(
 
       for result_var in result_vars:
         global_vars[result_var] = result
+      if complex_assign is not None:
+        try:
+          exec(  # pylint: disable=exec-used
+              compile(ast.fix_missing_locations(complex_assign), '', mode='exec'),
+              global_vars,
+          )
+        except Exception as e:
+          raise errors.CodeError(code, e) from e
     else:
       try:
         exec(compile(code_block, '', mode='exec'), global_vars)  # pylint: disable=exec-used
